@@ -567,6 +567,8 @@ def broken_placeholder(proved, dis, mdis=None):
     return b
 
 
+KEY_HCORDER = "C01:holding-cell-add-before-fulfill-reserve-close"
+KEY_DBGOVERDRAWN = "C01:debug-assert-overdrawn-on-concurrent-adds"
 KEY_COOP = "C01:coop-close-fee-exceeds-funder-balance"
 KEY_LIMIT = "C01:limit-not-accepted-by-funder-peer"
 
@@ -614,6 +616,44 @@ def classify_known(rec, f):
             min_fee = est * weight // 1000
             if d[0]["self"] // 1000 < min_fee:
                 return KEY_COOP
+    if f["judge"] in ("b:no-error", "b:no-force-close") and ("Remote HTLC add would put them under remote reserve value" in f["why"]
+                                                                or "Remote HTLC add would overdraw remaining funds" in f["why"]):
+        # (3) a holding-cell batch [update_add.., update_fulfill.., commitment_signed] whose add is only payable
+        # with the funds of a fulfill of the SAME batch: the peer validates the add before it sees the fulfill
+        i = f["step"]
+        s = steps[i]
+        if s["l"].startswith("deliver") and s.get("msg") and s["msg"][0] == "add":
+            x = int(s["l"].split()[1])
+            y = 1 - x
+            add_amt = s["msg"][2]
+            batch = None
+            for j in range(i - 1, -1, -1):
+                if any(m[0] == "add" and m[1] == s["msg"][1] for m in steps[j]["em"][x]):
+                    batch = steps[j]["em"][x]
+                    break
+            d = steps[i - 1]["d"][y]
+            if batch and d is not None:
+                kinds = [m[0] for m in batch]
+                fulfilled = [m[1] for m in batch if m[0] == "fulfill"]
+                if fulfilled and "add" in kinds and kinds.index("fulfill") > kinds.index("add"):
+                    hs = [(False, h[1]) for h in d["in"]] + [(True, h[1]) for h in d["out"]] + [(False, add_amt)]
+                    fr = max(d["fr"], d["pfee"][0] if d["pfee"] else 0)
+                    before = ref_ncs(ct, False, bool(d["fund"]), d["v"], d["self"], 0, fr, False, d["cd"], hs)
+                    paid = sum(h[1] for h in d["out"] if h[0] in fulfilled)
+                    hs2 = [(False, h[1]) for h in d["in"]] + [(True, h[1]) for h in d["out"] if h[0] not in fulfilled] + [(False, add_amt)]
+                    after = ref_ncs(ct, False, bool(d["fund"]), d["v"], d["self"] - paid, 0, fr, False, d["cd"], hs2)
+                    res = d["hres"] * 1000
+                    if (before is None or before[1] < res) and after is not None and after[1] >= res:
+                        return KEY_HCORDER
+    if f["judge"] == "no-panic" and "some channel balance has been overdrawn" in f["why"] and "channel_state.rs" in f["why"] and steps:
+        # (4) ChannelDetails::from_channel's debug_assert while BOTH sides have HTLC adds the other has not
+        # yet acknowledged (concurrent adds whose total fee the funder cannot pay)
+        d = steps[-1]["d"]
+        if d[0] is not None and d[1] is not None:
+            def unacked(dd):
+                return any(h[4] == 0 for h in dd["out"]) or any(u[0] == 0 for u in dd["hc"])
+            if unacked(d[0]) and unacked(d[1]):
+                return KEY_DBGOVERDRAWN
     if f["judge"] == "e:limits-sound" and "in-sync peer" in f["why"] and ("ChannelBalanceOverdrawn" in f["why"] or "FeeSpikeBuffer" in f["why"]):
         # (2) sender is the non-funder, amount within [min, limit], peer in sync, graceful fail-back whose
         # only cause is the funder-receiver's extra fee-spike-buffer HTLC
@@ -648,7 +688,7 @@ def trace_layer(ctx):
     if "h_chan" not in BINS:
         return []
     quick = ctx.tier == "quick"
-    n, nl = (440, 60) if quick else (3000, 150)
+    n, nl = (480, 60) if quick else (3000, 150)
     keep = 32 if quick else 200
     lines = T.gen_schedules(ctx.rng.fork("trace"), n, nl)
     tot = {}
@@ -762,7 +802,7 @@ def run(ctx):
             continue
         reported.add(tag)
         small = line
-        if key is None and f["judge"] != "no-panic":
+        if key is None:
             try:
                 small = T.shrink(ctx, ref_commit, line, f["judge"])
             except Exception as ex:  # shrinking is best effort
